@@ -24,5 +24,16 @@ if os.path.exists('/verif/seeded_results.json'):
         v=sr[k]
         rows.append('| %s | %s | %s | %s |'%(k,v.get('breaks','')[:160].replace('|','/'),', '.join(v.get('detected',[])) or '-',', '.join(v.get('missed',[])) or '-'))
     block('seeded','\n'.join(rows))
+m=json.load(open('/verif/MANIFEST.json'))
+props={json.loads(l)['id']:json.loads(l) for l in open('/verif/properties.jsonl')}
+rows=['| property | status | what the check decides (short) |','|---|---|---|']
+chk={c['property_id']:c for c in m['checks']}
+na={n['property_id']:n for n in m['not_applicable']}
+for pid in sorted(props):
+    if pid in chk:
+        c=chk[pid]; rows.append('| %s %s | claimed: %s | %s |'%(pid,props[pid]['title'][:60],c['level_claimed']['category'],c['level_claimed']['text'][:330].replace('|','/')+' ... Limits: '+c['level_note'][:260].replace('|','/')))
+    else:
+        rows.append('| %s %s | not claimed | %s |'%(pid,props[pid]['title'][:60],na[pid]['reason'][:500].replace('|','/')))
+block('status','\n'.join(rows))
 open(p,'w').write(s)
 print('DESIGN.md blocks updated')
